@@ -123,3 +123,10 @@ Fixpoint example (v : jv) : bytes :=
   | JArr items => 91 :: join_with [44] (map example items) ++ [93]
   | JObj ms => 123 :: join_with [44] (map (fun m => enc_key (fst m) ++ 58 :: example (snd m)) ms) ++ [125]
   end.
+
+(* ---- Len(): where the root value ends (plain JSON; whatever follows it is not looked at) ---- *)
+Definition jlen (s : bytes) : option nat :=
+  match pvalue (S (2 * length s)) s with
+  | Some (_, r) => Some (length s - length r)%nat
+  | None => None
+  end.
